@@ -45,7 +45,7 @@ def oracle_c04(root: Path, dataset, model: H.Model, k: int, violations: list, ob
 
 
 def oracle_c08(root: Path, model: H.Model, k: int, violations: list, obs: Counter,
-               report: auditor.Audit | None = None, only_missing: bool = False) -> None:
+               report: auditor.Audit | None = None, only_missing: bool = False, kept_handle=None) -> None:
     """Append-only: per split, what iteration returns == everything accepted so far.
 
     `only_missing`: after a session that raised (reported separately) only the survival of previously
@@ -82,6 +82,17 @@ def oracle_c08(root: Path, model: H.Model, k: int, violations: list, obs: Counte
                                       f"({sum((got - want).values())})"})
         for problem in problems:
             violations.append({"key": "payload-changed", "msg": f"after session {k}: {problem}"})
+        if kept_handle is not None and not only_missing and split in kept_handle._dataset_info.splits:  # pylint: disable=protected-access
+            # the writing handle itself (used before and after the session) must see the same
+            try:
+                kept_ids, _ = dsmod.ids_of(kept_handle.as_numpy_iterator(split=split, shuffle=0, repeat=False))
+                obs["kept_handle_reads"] += 1
+                if Counter(kept_ids) != want:
+                    violations.append({"key": "kept-handle-sees-stale-data",
+                                       "msg": f"after session {k}: split {split}: the writing handle iterates "
+                                              f"{len(kept_ids)} examples, {sum(want.values())} were written"})
+            except Exception as exc:  # pylint: disable=broad-exception-caught
+                violations.append({"key": "iteration-raised", "msg": f"kept handle, split {split}: {exc!r}"})
         if report is not None and not only_missing:
             if Counter(report.ids(split)) != want:
                 violations.append({"key": "not-append-only/auditor",
